@@ -153,6 +153,10 @@ func (c *MapCodec) Read(data []byte, ptr unsafe.Pointer, wt plenccore.WireType) 
 	if n <= 0 {
 		return 0, fmt.Errorf("failed to read map size")
 	}
+	if count > uint64(len(data)-n) {
+		// Every entry takes at least one byte for its length
+		return 0, fmt.Errorf("map size %d exceeds the length of the data", count)
+	}
 
 	// ptr is a pointer to a map pointer
 	if *(*unsafe.Pointer)(ptr) == nil {
@@ -173,6 +177,9 @@ func (c *MapCodec) Read(data []byte, ptr unsafe.Pointer, wt plenccore.WireType) 
 			return 0, fmt.Errorf("failed to read map entry length")
 		}
 		offset += n
+		if entryLength > uint64(len(data)-offset) {
+			return 0, fmt.Errorf("map entry length %d exceeds the length of the data", entryLength)
+		}
 		n, err := c.readMapEntry(mp, k, data[offset:offset+int(entryLength)])
 		if err != nil {
 			return 0, err
@@ -250,10 +257,10 @@ func (c *MapCodec) readTagAndLength(data []byte, offset int) (offset2, fieldEnd,
 			return 0, 0, 0, wt, fmt.Errorf("varuint overflow reading %d of %s", index, c.rtype.Name())
 		}
 		offset += n
-		fieldEnd = int(fieldLen) + offset
-		if fieldEnd > len(data) {
+		if fieldLen > uint64(len(data)-offset) {
 			return 0, 0, 0, wt, fmt.Errorf("length %d of field %d of %s exceeds data length %d", fieldLen, index, c.rtype.Name(), len(data)-offset)
 		}
+		fieldEnd = int(fieldLen) + offset
 	}
 
 	return offset, fieldEnd, index, wt, nil
